@@ -315,6 +315,8 @@ def scheduling_set(media=True, extra_funcs=(), extra_attrs=()):
                     hit = True
                 elif isinstance(node, ast.Attribute) and node.attr in shared_attrs:
                     hit = True
+                elif isinstance(node, ast.Constant) and isinstance(node.value, str) and node.value in shared_attrs:
+                    hit = True  # getattr / hasattr / setattr / __dict__ access by name
                 elif isinstance(node, ast.Global):
                     hit = True
                 if hit:
